@@ -124,7 +124,7 @@ CHECKS = {
          "exhaustive product over IANA zone signature classes x every UTC-offset transition 2000-2037 (quick: 2019-2023), through the data classes and predict(); slot-level check of the clock normalisation",
          "All zones known to zoneinfo are grouped by their 2000-2037 transition list (computed from pandas' own conversion); for every transition of "
          "every class representative, hourly frames of whole local days with the transition day in the middle / first / last (for changes at local midnight also the day after the instant), with holes and NaN cells, with and without "
-         "usage, go through HourlyReportingData and HourlyModel.predict (document-loaded model naming the zone): index identical to data.df, strictly "
+         "usage, go through HourlyReportingData and HourlyModel.predict; spans of 230-730 days holding two to four clock changes in either order (hourly, and daily with season- and day-type-split models); (document-loaded model naming the zone): index identical to data.df, strictly "
          "chronological and unique in UTC, every prediction finite; feeding the clock normalisation the slot numbers shows that no row is shifted. "
          "Daily/billing: 10 daily rows / 70 days of reads around every transition of 2021 (+2027) per class x NaN-temperature / NaN-usage days "
          "adjacent to it: index equality and the finiteness pattern.",
@@ -132,8 +132,8 @@ CHECKS = {
          "DESIGN.md section 6, C06"),
  "C04": ("model_checking",
          "TLA+ model checked by TLC; the complete labelled state graph (-dump dot,actionlabels) is replayed edge by edge against the real classes (model <-> implementation conformance)",
-         "spec/tla/Gate.tla models the gate as object x override flags x storage with actions Fit(kind, ignore), Predict(data type, timezone, ignore), Store; "
-         "TLC checks FailClosed, FitGate, StorePreserves, UnfittedNeverPredicts on all reachable states (283; counts are re-read from TLC on every run). Every one of the edges (9004) is then "
+         "spec/tla/Gate.tla models the gate as object x override flags x storage with actions Fit(kind, ignore), Refit(kind, ignore) on an object that already holds a fit (fitted or loaded), Predict(data type, timezone, ignore), Store; "
+         "TLC checks FailClosed, FitGate, StorePreserves, UnfittedNeverPredicts on all reachable states (305; counts are re-read from TLC on every run). Every one of the edges (11862) is then "
          "executed on DailyModel, BillingModel and HourlyModel for every concrete realisation of the abstract baseline kinds (too short, too long, "
          "usage gaps / off-cycle read, a month of missing temperature, negative gas, weather-independent noise, threshold-placed poor fit, and "
          "combinations): the observed outcome class must be the model's and the abstraction of the real object after the call must equal the "
@@ -155,7 +155,7 @@ CHECKS = {
          "depth 2 (thorough 3, last level: core fits); after every operation the process-global fingerprint (module-level containers, mutable "
          "defaults, pydantic field defaults, numpy RNG, sklearn config, numba signatures, BLAS/OMP env) identifies the state; every fit anywhere "
          "must give the document and predictions of that fit alone in a fresh process (itself run twice). T: every interleaving of the public "
-         "calls of 2-3 real threads. P: 8 (thorough 1-16) concurrent processes sharing a cold then warm numba cache. E: thread-count environments.",
+         "calls of 2-3 real threads. P: 8 (thorough 1-16) concurrent processes sharing a cold then warm numba cache. E: thread-count environments, other string-hash seeds (the harness pins PYTHONHASHSEED=0; a fit of every family incl. CalTRACK hourly is re-run under 2-5 other seeds), other process time zones, and developer profiles selecting a randomised optimiser (twice in one process and in fresh ones).",
          "Call-granularity interleavings only (inside a fit: one free-running execution, reported separately); C-level state seen through outputs only.",
          "DESIGN.md section 6, C03"),
  "C08": ("exploration",
